@@ -37,8 +37,10 @@
  * largest claimed ticket is t and the new Ub is its Ubm:  H + 1 + Ubm <= H + Ubm + D + 1 = t - o + 1 <= tail <= T.
  * If it is not above, it was counted in Ub: H + 1 + (Ub - 1) = H + Ub <= T (no check needed: its element was reserved by
  * the check of the larger ticket that claimed first).
- * The RELY of a thread is: the four words only grow, MCQ_INV and its own per-thread invariant hold again after any
- * number of steps of other threads (mcq_lemma.c checks this for every transition of another thread).              */
+ * The RELY of a consumer is: headIndex and dequeueOvercommit only grow (by less than 2^60 while one call runs), tailIndex
+ * is never behind a value read from it, MCQ_INV and the thread's own per-thread invariant hold again after any number of
+ * steps of other threads, and `above` only switches off (mcq_lemma.c checks this for every transition of another thread).
+ * The RELY of the producer is: nobody else writes tailIndex; headIndex grows but never passes tailIndex (I1).            */
 #ifndef C17_MCQ_H
 #define C17_MCQ_H
 #include "vx.h"
@@ -74,11 +76,6 @@ struct mcq_thread
                : (g).Ub >= 1))
 /* a thread that has not taken its ticket yet: there is room for one more (A-BOUNDED counts this thread too) */
 #define MCQ_ME(g, m) (MCQ_PAST(g, m) && ((m).phase != PH_IDLE || (g).U + 1 < MCQ_BIG) && ((m).phase != PH_UNDECIDED || MCQ_ME_UNDECIDED(g, m)))
-/* the words only grow (MCQ_GROW: one burst of interference; MCQ_NEAR: by less than 2^60 in total while one call runs) */
-#define MCQ_NEAR(g0, n) MCQ_GROW(g0, n)
-#define MCQ_GROW(o, n) ((index_t) ((n).T - (o).T) < MCQ_BIG && (index_t) ((n).H - (o).H) < MCQ_BIG && \
-                        (index_t) ((n).C - (o).C) < MCQ_BIG && (index_t) ((n).O - (o).O) < MCQ_BIG)
-
 /* ---- the transitions (ghost bookkeeping of one atomic step of thread m; k = the amount the code adds) ---- */
 /* TICKET: t := C; C += k; one more undecided ticket, above everything that exists */
 #define MCQ_DO_TICKET(g, m, k) do { (m).t = (g).C; (m).above = true; (m).Ubm = (g).U; (m).D = (index_t) ((g).O - (m).o); \
